@@ -69,8 +69,12 @@ pub fn format_dividend(
 }
 
 /// Format a comment line
+///
+/// A comment ends at the first line terminator, so CR and LF inside free text
+/// (e.g. a broker's description field) are replaced by spaces; otherwise the rest
+/// of the text would leave the comment and be read as DSL.
 pub fn format_comment(text: &str) -> String {
-    format!("# {}", text)
+    format!("# {}", text.replace(['\r', '\n'], " "))
 }
 
 /// Generate header comments for a converted file
